@@ -42,7 +42,9 @@ impl<VM: VMBinding> Allocator<VM> for MallocAllocator<VM> {
     }
 
     fn alloc_slow_once(&mut self, size: usize, align: usize, offset: usize) -> Address {
-        self.space.alloc(self.tls, size, align, offset)
+        let alloc_options = self.get_context().get_alloc_options();
+        self.space
+            .alloc(self.tls, size, align, offset, alloc_options)
     }
 }
 
